@@ -49,6 +49,10 @@ NamingShapes == <<
   With("n.kebab", <<Msg("Leaf", <<Json(Fld("Str", 1, "string"), "burst-size,omitempty"), Fld("Num", 2, "int32")>>, <<>>),
                     Msg("Root", <<Json(Fld("FooBar", 1, "string"), "max-age"), Fld("Num", 2, "int64"), MsgF("Sub", 3, "Leaf"), Rep(MsgF("Subs", 4, "Leaf"))>>, <<>>)>>,
        Ovr(<<KV("Root.Num", "x-trace-id")>>)),
+  \* an EMBEDDED message field that carries a json name of its own: embedded messages are flattened whatever their tag says
+  With("n.embed.json", <<Msg("Inner", <<Fld("Flag", 1, "bool"), Fld("Zed", 2, "string")>>, <<>>), Msg("Mid", <<Fld("Flt", 1, "float")>>, <<>>),
+                         Msg("Root", <<Fld("Str", 1, "string"), Json(NonNull(Embed(MsgF("Inner", 2, "Inner"))), "meta,omitempty"),
+                                       Json(Embed(MsgF("Mid", 3, "Mid")), "mid")>>, <<>>)>>, BaseCfg),
   With("n.ovr.path", <<Msg("Root", <<Fld("Str", 1, "string")>>, <<>>)>>, Ovr(<<KV("Root.Str", "ovr_path")>>)),
   With("n.ovr.path.json", <<Msg("Root", <<Json(Fld("Str", 1, "string"), "jname")>>, <<>>)>>, Ovr(<<KV("Root.Str", "ovr_path")>>)),
   With("n.ovr.tn", <<Leaf, Msg("Root", <<MsgF("Sub", 1, "Leaf"), MsgF("Sub2", 2, "Leaf")>>, <<>>)>>, Ovr(<<KV("Leaf.Str", "ovr_tn")>>)),
@@ -274,8 +278,17 @@ NestedShapes ==
        mk("clash", NestedDesc(<<Msg("Extra", <<Fld("Flag", 1, "bool")>>, <<>>), Msg("Outer", <<Fld("Num", 1, "int32")>>, <<>>), leaf, root>>,
                               <<KV("Extra", "Outer:Leaf"), KV("Leaf", "Root")>>))>>
 
+\* a selected type with a custom-type field (by option / by configuration) in front of one without: whatever the first one
+\* makes the generator remember must not leak into the functions of the second
+CustSelShapes ==
+  LET cust == Msg("Root", <<Fld("Str", 1, "string"), [NonNull(Fld("Cust", 2, "string")) EXCEPT !.custom = "CustT"], Fld("Extra", 3, "string")>>, <<>>)
+      other == Msg("Other", <<Fld("Flag", 1, "bool"), Fld("Num", 2, "int32")>>, <<>>)
+      mk(id, types, root) == [Shape("c12.cust." \o id \o "." \o root, Desc(<<cust, other>>), [BaseCfg EXCEPT !.types = types, !.customtypes = <<KV("Root.Extra", "CustX")>>]) EXCEPT
+                                !.root = root, !.run = "c12.cust." \o id, !.group = "c12.cust", !.gchecks = <<GCheck("fn", "C12", "C12.text_independent")>>]
+  IN <<mk("1", <<"Other">>, "Other"), mk("2", <<"Root">>, "Root"), mk("3", <<"Root", "Other">>, "Root"), mk("3", <<"Root", "Other">>, "Other")>>
+
 GenSelectShapes(long) ==
-  CrossFileShapes \o EmptyUseShapes \o NameRelShapes \o NestedShapes \o
+  CrossFileShapes \o EmptyUseShapes \o NameRelShapes \o NestedShapes \o CustSelShapes \o
   IF long THEN SelShapesOf(FALSE, {"none", "msg", "dep", "rev"}) \o SelShapesOf(TRUE, {"none", "msg", "dep", "rev"})
   ELSE SelShapesOf(FALSE, {"none", "dep", "rev"}) \o SelShapesOf(TRUE, {"msg", "rev"})
 
@@ -348,16 +361,27 @@ PrefixPoison(kind) ==
         mk("1bad", cfg(<<"Foo", "FooBar">>, <<>>), "FooBar"), mk("1bad", cfg(<<"Foo", "FooBar">>, <<>>), "Foo"),
         mk("2excl", cfg(<<"Foo", "FooBar">>, <<"Foo.Bad">>), "FooBar"), mk("2excl", cfg(<<"Foo", "FooBar">>, <<"Foo.Bad">>), "Foo") >>
 
+\* the unmappable field has a lower_snake name (its Go name differs from its proto name) and is excluded by a Message.field key
+SnakePoison ==
+  LET bf == [MapOf(Fld("foo_bar", 9, "string")) EXCEPT !.mapkey = "int32"]
+      d == Desc(<<Leaf, Msg("Mid", <<Fld("Num", 1, "int32"), bf>>, <<>>), Msg("Poison", <<Fld("Str", 1, "string"), MsgF("Sub", 2, "Mid")>>, <<>>), Healthy>>)
+      g == "c18.snake"
+      mk(tag, cfg, root) == [Shape(g \o "." \o tag \o "." \o root, d, cfg) EXCEPT !.root = root, !.run = g \o "." \o tag, !.group = g,
+                                  !.gchecks = <<GCheck("fn", "C18", "C18.others_intact")>>]
+  IN << mk("0base", [WholeCfg("mapkey", <<>>) EXCEPT !.types = <<"Root">>], "Root"),
+        mk("1bad", WholeCfg("mapkey", <<>>), "Root"), mk("1bad", WholeCfg("mapkey", <<>>), "Poison"),
+        mk("2excl", WholeCfg("mapkey", <<"Mid.foo_bar">>), "Root"), mk("2excl", WholeCfg("mapkey", <<"Mid.foo_bar">>), "Poison") >>
+
 Positions == <<"top", "nested", "list", "map", "embed", "oneof", "deep", "deep5">>
 BadKinds == <<"time", "dur", "mapkey", "ptime", "pdur", "group">>
 GenWholeShapes(long) ==
   IF long THEN FlattenSeq([i \in 1..(Len(Positions) * Len(BadKinds)) |->
                  WholeShapesFor(Positions[((i - 1) \div Len(BadKinds)) + 1], BadKinds[((i - 1) % Len(BadKinds)) + 1])])
-               \o SharedPoison("time") \o SharedPoison("dur") \o SharedPoison("mapkey") \o PrefixPoison("mapkey") \o PrefixPoison("time")
+               \o SharedPoison("time") \o SharedPoison("dur") \o SharedPoison("mapkey") \o PrefixPoison("mapkey") \o PrefixPoison("time") \o SnakePoison
   ELSE WholeShapesFor("top", "time") \o WholeShapesFor("nested", "mapkey") \o WholeShapesFor("list", "dur")
        \o WholeShapesFor("map", "time") \o WholeShapesFor("embed", "mapkey") \o WholeShapesFor("oneof", "dur") \o WholeShapesFor("deep", "time")
        \o SharedPoison("time") \o WholeShapesFor("nested", "ptime") \o WholeShapesFor("top", "pdur") \o WholeShapesFor("deep5", "time") \o PrefixPoison("mapkey")
-       \o WholeShapesFor("nested", "group") \o WholeShapesFor("top", "group")
+       \o WholeShapesFor("nested", "group") \o WholeShapesFor("top", "group") \o SnakePoison
 
 ---------------------------------------------------------------------------
 \* C16: command line and YAML are equivalent channels; C14: determinism
@@ -461,6 +485,11 @@ GenDetShapes(long) == <<
   [Shape("c14.embeds", Desc(DetEmbeds), [BaseCfg EXCEPT !.types = <<"Outer">>, !.alts = DetAlts(long)]) EXCEPT !.root = "Outer"],
   [Shape("c14.embeds.sorted", Desc(DetEmbeds), [BaseCfg EXCEPT !.types = <<"Outer">>, !.sort = TRUE, !.alts = DetAlts(long)]) EXCEPT !.root = "Outer", !.run = "c14.embeds.sorted"],
   [Shape("c14.multi", Desc(<<DetLeaf, ChanRoot, ChanOther>>), [DetCfg EXCEPT !.alts = DetAlts(long)]) EXCEPT !.root = "Root"],
+  \* custom types on repeated and map fields (by option and by configuration): a field that is several things at once
+  [Shape("c14.custom", Desc(<<Msg("Root", <<Fld("Str", 1, "string"), [Rep(Fld("Custs", 2, "bool")) EXCEPT !.custom = "CustB"], MapOf(Fld("Tags", 3, "string")),
+                                            Fld("Cust", 4, "string"), Rep(Fld("Items", 5, "int32"))>>, <<>>)>>),
+         [BaseCfg EXCEPT !.customtypes = <<KV("Root.Tags", "CustM"), KV("Root.Cust", "CustC"), KV("Root.Items", "CustL")>>, !.suffixes = <<KV("CustB", "SufB")>>,
+                         !.alts = DetAlts(long)]) EXCEPT !.root = "Root"],
   \* selected types declared in TWO proto files of the request (the file to generate and a file of the same package it imports)
   [Shape("c14.xfile", [pkg |-> "tp", msgs |-> <<XFront, XRoot>>, deps |-> <<XDep>>],
          [BaseCfg EXCEPT !.types = <<"Root", "Extra", "Other">>, !.alts = DetAlts(long)]) EXCEPT !.root = "Root"],
